@@ -233,6 +233,9 @@ def body(chk):
         "as written (count and order are what it fixes); such a pattern surfaces as DRIFT",
         "xarray's decomposition of array / negative-step indexers into backend slices is exercised, not modelled",
     ]
+    from harness import tlaps
+
+    tlaps.prove(chk)
     chk.finish(
         rule="traces = one per (image, open + its loads) on vtrace://; selections: TLC-enumerated row progressions, first+last "
              "row, one row per group, strides across group borders, empty, full, reversed, integers, arrays; rpc from 1 to "
